@@ -75,14 +75,15 @@ TRows ==
   /\ l' = l + 1 /\ UNCHANGED <<serVars, tcase, silentOk>>
 \* both deserializers return the value that was serialized (C01 / C02 on the recorded run)
 TFull ==
-  /\ l <= Len(Rec) /\ Ev.ev = "full" /\ Ev.st = "ok" /\ Ev.val = <<tcase.v>> /\ Ev.rpos = Len(out)
+  /\ l <= Len(Rec) /\ Ev.ev = "full" /\ Ev.st = "ok" /\ Ev.val = <<tcase.v>>
+  /\ (status = "ok" => Ev.rpos = Len(out))      \* (the machine has run only if the serializer events are in the trace)
   /\ l' = l + 1 /\ UNCHANGED <<serVars, tcase, silentOk>>
 TEps ==
   /\ l <= Len(Rec) /\ Ev.ev = "eps" /\ Ev.st = "ok" /\ Ev.val = <<tcase.v>>
   \* every borrowed part is a block the machine wrote: same offset and length, inside the stream
   /\ \A i \in 1..Len(Ev.borrows) :
         LET b == Ev.borrows[i]
-        IN (b.len > 0 \/ b.esz > 0) =>
+        IN (status = "ok" /\ (b.len > 0 \/ b.esz > 0)) =>
              /\ b.inb /\ b.mis = 0
              /\ \E j \in 1..Len(rows) : rows[j].field[Len(rows[j].field)] = "zero" /\ rows[j].off = b.off /\ rows[j].size = b.len
   /\ l' = l + 1 /\ UNCHANGED <<serVars, tcase, silentOk>>
